@@ -77,6 +77,58 @@ USquare(a) ==
             IN << Upd(st[1], 4 + i, ad[1]), ad[2] >>
         fin == FoldLeft(red, << r5, 0 >>, <<1, 2, 3, 4>>)
     IN SubModWithCarry(SubSeq(fin[1], 5, 8), fin[2] # 0)
+\* ------------------------------------------------------------- u256.rs: add_carry, invert (BEA), div2 on values
+\* add_carry: `while !self.sub_with_borrow(modulo) {}` - subtract M (wrapping mod R) until a borrow occurs
+RECURSIVE AddCarryV(_)
+AddCarryV(n) == IF n < M THEN (n + RR - M) % RR ELSE AddCarryV(n - M)
+Div2V(n) == ValOf(UDiv2(Limbs(n)))
+SubV(a, b) == ValOf(USub(Limbs(a), Limbs(b)))
+\* invert(self, modulo, rsquared): binary extended Euclid on (u, v, b, c); returns the new value of self
+RECURSIVE BeaLoop(_, _, _, _, _)
+RECURSIVE StripU(_, _)
+StripU(u, b) == IF u % 2 = 0 THEN StripU(u \div 2, Div2V(b)) ELSE << u, b >>
+BeaLoop(u, v, b, c, fuel) ==
+    IF fuel = 0 THEN << "nonterminating" >>
+    ELSE IF u = 1 THEN << "ok", b >> ELSE IF v = 1 THEN << "ok", c >>
+    ELSE LET su == StripU(u, b)  sv == StripU(v, c)
+             u1 == su[1]  b1 == su[2]  v1 == sv[1]  c1 == sv[2]
+         IN IF u1 >= v1 THEN BeaLoop(u1 - v1, v1, SubV(b1, c1), c1, fuel - 1)
+            ELSE BeaLoop(u1, v1 - u1, b1, SubV(c1, b1), fuel - 1)
+RSquared == (RR * RR) % M
+UInvert(m) == BeaLoop(m, M, RSquared, 0, 16 * W + 8)
+\* ------------------------------------------------------------- fp.rs: sum_of_products<T>  (a, b: sequences of T limb-vectors)
+SumOfProducts(as, bs) ==
+    LET T == Len(as)
+        inner(t, idx) ==            \* t = <<t0..t5>>, idx = <<i, j>>
+            LET d == as[idx[1]][idx[2]]  e == bs[idx[1]]
+                m0 == Mac(t[1], d, e[1], 0)  m1 == Mac(t[2], d, e[2], m0[2])  m2 == Mac(t[3], d, e[3], m1[2])  m3 == Mac(t[4], d, e[4], m2[2])
+                a4 == Adc(t[5], 0, m3[2])  a5 == Adc(t[6], 0, a4[2])
+            IN << m0[1], m1[1], m2[1], m3[1], a4[1], a5[1] >>
+        outer(u, j) ==              \* u = <<u0..u4>>
+            LET t == FoldLeft(LAMBDA acc, i : inner(acc, << i, j >>), << u[1], u[2], u[3], u[4], u[5], 0 >>, [i \in 1..T |-> i])
+                k == (t[1] * MInv) % LB
+                c0 == Mac(t[1], k, ML[1], 0)  r1 == Mac(t[2], k, ML[2], c0[2])  r2 == Mac(t[3], k, ML[3], r1[2])  r3 == Mac(t[4], k, ML[4], r2[2])
+                r4 == Adc(t[5], 0, r3[2])  r5 == Adc(t[6], 0, r4[2])
+            IN << r1[1], r2[1], r3[1], r4[1], r5[1] >>
+        u == FoldLeft(outer, << 0, 0, 0, 0, 0 >>, << 1, 2, 3, 4 >>)
+        r0 == ValOf(<< u[1], u[2], u[3], u[4] >>)
+        RECURSIVE rep(_, _)
+        rep(r, n) == IF n = 0 THEN r ELSE rep(AddCarryV(r), n - 1)
+        rc == rep(r0, u[5])
+    IN << IF rc >= M THEN rc - M ELSE rc, u[5], r0 >>          \* <<result, u4, accumulator before the carry fold>>
+\* ------------------------------------------------------------- u512.rs: divrem on an 8-limb dividend n (as a number < R^2)
+RECURSIVE BitLen(_)
+BitLen(n) == IF n = 0 THEN 0 ELSE 1 + BitLen(n \div 2)
+DivRem(n) ==
+    LET step(st, i) ==              \* st = <<q or -1 (None), r>>; i counts down from bits-1 to 0
+            LET carry == st[2] >= RR \div 2                       \* mul2 carries out
+                r1 == ((st[2] * 2) % RR) - (((st[2] * 2) % RR) % 2) + ((n \div (2 ^ i)) % 2)    \* set_bit(0, bit i of n)
+            IN IF r1 >= M \/ carry
+               THEN << IF st[1] >= 0 /\ i < 4 * W THEN st[1] + 2 ^ i ELSE -1, (r1 + RR - M) % RR >>
+               ELSE << st[1], r1 >>
+        bits == BitLen(n)
+        fin == FoldLeft(step, << 0, 0 >>, [k \in 1..bits |-> bits - k])
+    IN IF fin[1] >= 0 /\ fin[1] >= M THEN << -1, fin[2] >> ELSE fin
 \* ------------------------------------------------------------- oracle
 RInvModM == CHOOSE x \in 0..(M - 1) : (x * (RR % M)) % M = 1
 Canon(l) == ValOf(l) < M
